@@ -338,8 +338,17 @@ func g13Trip(t *rapid.T) *H13Trip {
 		m.StartTime = rapid.SampledFrom([]int64{0, 1, 3600, 86399, 90000}).Draw(t, "time")
 	}
 	n := rapid.IntRange(0, 4).Draw(t, "nSTU")
+	long := rapid.IntRange(0, 11).Draw(t, "longList") == 0
+	if long {
+		// size class: long runs of updates, most of them identified by sequence only (no strings between the numbers)
+		n = rapid.SampledFrom([]int{9, 17, 33, 70}).Draw(t, "longN")
+	}
 	for i := 0; i < n; i++ {
-		m.STUs = append(m.STUs, g13STU(t))
+		u := g13STU(t)
+		if long && rapid.IntRange(0, 9).Draw(t, "seqOnly") != 0 {
+			u.StopID, u.Track = nil, nil
+		}
+		m.STUs = append(m.STUs, u)
 	}
 	return m
 }
